@@ -5,4 +5,5 @@ REGISTRY = {
     "C08": "harness.c08_sctp",
     "C10": "harness.c10_jitter",
     "C17": "harness.c17_serial",
+    "C18": "harness.c18_rr",
 }
